@@ -299,7 +299,7 @@ func TestC14_NumbersEnum(t *testing.T) {
 // TestC14_Boundaries: every integer around the 31/32/63/64-bit boundaries, in each base and sign, for each type and position.
 func TestC14_Boundaries(t *testing.T) {
 	ev.RunEnum(t, ev.Spec[c14Case]{ID: "C14", Name: "Boundaries",
-		Rule:  "ALL integers 2^k-2 .. 2^k+2 for k in {7, 8, 15, 16, 31, 32, 53, 62, 63, 64} and 0..2, spelled in decimal, octal (leading 0) and hexadecimal (0x and 0X, both letter cases), with and without a leading '-' (and '- ' with a space), as the default of a double, a uint64 and an int64 field and as the value of custom options of those types; same oracle as the enumerations; non-trivial = all (each is a boundary case)",
+		Rule:  "ALL integers 2^k-2 .. 2^k+2 for k in {7, 8, 15, 16, 31, 32, 53, 62, 63, 64} and 0..2, spelled in decimal, octal (leading 0) and hexadecimal (0x and 0X, both letter cases), with and without a leading '-' (and '- ' with a space), plus decimal integers of 20..1200 digits (values far above 2^64, around the largest double at 308-310 digits) with and without a '_' at six positions, as the default of a double, a uint64 and an int64 field and as the value of custom options of those types; same oracle as the enumerations; non-trivial = all (each is a boundary case)",
 		Check: c14Check}, true, func(yield func(c14Case) bool) {
 		var vals []*big.Int
 		for _, k := range []uint{0, 7, 8, 15, 16, 31, 32, 53, 62, 63, 64} {
@@ -308,6 +308,33 @@ func TestC14_Boundaries(t *testing.T) {
 				v := new(big.Int).Add(base, big.NewInt(d))
 				if v.Sign() >= 0 {
 					vals = append(vals, v)
+				}
+			}
+		}
+		// decimal integers far above 2^64: read as floating-point literals, overflowing to infinity from 310 digits on; a digit
+		// separator anywhere in one of them is never accepted
+		for _, n := range []int{20, 21, 25, 39, 100, 307, 308, 309, 310, 311, 400, 1200} {
+			for _, d := range []string{"1", "17", "9"} {
+				sp := (d + strings.Repeat(d[len(d)-1:], n))[:n]
+				if d == "1" {
+					sp = "1" + strings.Repeat("0", n-1)
+				}
+				spell := []string{sp}
+				for _, at := range []int{1, 18, 19, 20, 21, n - 1} {
+					if at < n {
+						spell = append(spell, sp[:at]+"_"+sp[at:])
+					}
+				}
+				for _, s := range spell {
+					for _, sign := range []string{"", "-"} {
+						for _, k := range []string{"double", "uint64", "int64"} {
+							for _, pos := range []string{"default", "option"} {
+								if !yield(c14Case{Kind: k, Lit: sign + s, Pos: pos}) {
+									return
+								}
+							}
+						}
+					}
 				}
 			}
 		}
